@@ -92,7 +92,7 @@ Tactic Notation "fstep" constr(L) "as" simple_intropattern(p) :=
   | H : bind _ _ = Ok _ |- _ =>
       let E := fresh "E" in bind_inv H as p E; erewrite L by exact E; cbn [bind]
   end.
-Ltac fdone := match goal with H : Ok _ = Ok _ |- _ => inversion H; subst; reflexivity end.
+Ltac fdone := match goal with H : Ok _ = Ok _ |- _ => injection H as ?; subst; reflexivity end.
 
 (* ---- picture header ---- *)
 Lemma decode_pei_frame x : forall fuel fuel' acc r l r', (fuel <= fuel')%nat ->
@@ -109,17 +109,6 @@ Proof.
   destruct (negb (Z.land hi 192 =? 128)); [discriminate|]. cbv zeta in *.
   destruct (Z.land hi 7 =? 0); [discriminate|]. destruct (Z.land hi 7 =? 7); [fdone|].
   fstep read_bits_frame as [lo r2]. fdone.
-Qed.
-
-Lemma decode_plusptype_frame o po r v r' x : decode_plusptype o po r = Ok (v, r') -> decode_plusptype o po (ext_r x r) = Ok (v, ext_r x r').
-Proof.
-  unfold decode_plusptype. intros H. fstep read_bits_frame as [ufep r1].
-  destruct (negb ((ufep =? 0) || (ufep =? 1))); [discriminate|]. cbv zeta in *.
-  destruct (ufep =? 1).
-  - bind_inv H as [[[opts sf] fol] r2] E2. bind_inv E2 as [opp r3] E3. rewrite (read_bits_frame _ _ _ _ _ x E3). cbn [bind].
-    destruct (negb (Z.land opp 15 =? 8)); [discriminate|]. inversion E2; subst. cbn [bind].
-    fstep read_bits_frame as [mpp r4]. destruct (negb (Z.land mpp 7 =? 1)); [discriminate|]. fdone.
-  - cbn [bind] in *. fstep read_bits_frame as [mpp r4]. destruct (negb (Z.land mpp 7 =? 1)); [discriminate|]. fdone.
 Qed.
 
 Lemma decode_sorenson_ptype_frame r v r' x : decode_sorenson_ptype r = Ok (v, r') -> decode_sorenson_ptype (ext_r x r) = Ok (v, ext_r x r').
@@ -215,7 +204,13 @@ Lemma framed_read_signed w n : framed (read_signed_bits w n). Proof. intros x r 
 Lemma framed_read_vlc {T} (t : list (entry T)) : framed (read_vlc t). Proof. intros x r a r'. apply read_vlc_frame. Qed.
 Lemma framed_read_umv : framed read_umv. Proof. intros x r a r'. apply read_umv_frame. Qed.
 Lemma framed_ptype : framed decode_ptype. Proof. intros x r a r'. apply decode_ptype_frame. Qed.
-Lemma framed_plusptype o po : framed (decode_plusptype o po). Proof. intros x r a r'. apply decode_plusptype_frame. Qed.
+Lemma framed_plusptype o po : framed (decode_plusptype o po).
+Proof.
+  unfold decode_plusptype.
+  repeat first [ apply framed_ret | apply framed_err | apply framed_read_bits | apply framed_if
+               | (apply framed_bind; [|intros]) | progress cbv zeta
+               | match goal with |- framed (fun r => match ?v with _ => _ end) => is_var v; destruct v end ].
+Qed.
 Lemma framed_sorenson_ptype : framed decode_sorenson_ptype. Proof. intros x r a r'. apply decode_sorenson_ptype_frame. Qed.
 Lemma framed_cpm : framed decode_cpm_and_psbi. Proof. intros x r a r'. apply decode_cpm_frame. Qed.
 Lemma framed_cpfmt : framed decode_cpfmt. Proof. intros x r a r'. apply decode_cpfmt_frame. Qed.
